@@ -450,12 +450,26 @@ func (s *segment) close() error {
 
 // Cleaned creates a cleaned segment for this segment.
 func (s *segment) Cleaned() (*segment, error) {
-	return newSegment(s.path, s.BaseOffset, s.maxBytes, false, cleanedSuffix)
+	return s.newReplacement(cleanedSuffix)
 }
 
 // Truncated creates a truncated segment for this segment.
 func (s *segment) Truncated() (*segment, error) {
-	return newSegment(s.path, s.BaseOffset, s.maxBytes, false, truncatedSuffix)
+	return s.newReplacement(truncatedSuffix)
+}
+
+// newReplacement creates an empty segment with the given file suffix which is
+// intended to replace this segment. Files left behind by a previous attempt
+// that did not complete, e.g. because the process crashed, are discarded such
+// that the replacement always starts out empty.
+func (s *segment) newReplacement(suffix string) (*segment, error) {
+	stale := &segment{path: s.path, BaseOffset: s.BaseOffset, suffix: suffix}
+	for _, file := range []string{stale.logPath(), stale.indexPath()} {
+		if err := os.Remove(file); err != nil && !os.IsNotExist(err) {
+			return nil, errors.Wrap(err, "failed to remove stale segment file")
+		}
+	}
+	return newSegment(s.path, s.BaseOffset, s.maxBytes, true, suffix)
 }
 
 // Replace replaces the given segment with the callee.
